@@ -424,6 +424,12 @@ func (r StepResult) Outcome() string {
 func (w *World) Step(p *Pair) StepResult {
 	res := StepResult{Before: w.Cursor(p)}
 	nCommits := len(w.db.Commits())
+	nPos := 0
+	for _, r := range w.db.Rows("shovel.task_updates") {
+		if r["src_name"] == p.Src.Name && r["ig_name"] == p.Decl.Name {
+			nPos++
+		}
+	}
 	w.mu.Lock()
 	w.stepping = p
 	p.headsSeen = nil
@@ -440,6 +446,27 @@ func (w *World) Step(p *Pair) StepResult {
 	p.LastErr = res.Err
 	if res.Panic == nil && res.Err == nil {
 		p.OKSteps++
+	}
+	if p.Start == 0 {
+		// a pair that starts at the head begins anew once its whole position history is
+		// gone (a reorg of everything it had recorded): from the first block of its next position row
+		for _, c := range res.Commits {
+			for _, x := range c.Removed {
+				if x.Table == "shovel.task_updates" && x.Row["src_name"] == p.Src.Name && x.Row["ig_name"] == p.Decl.Name {
+					nPos--
+				}
+			}
+			for _, x := range c.Added {
+				if x.Table == "shovel.task_updates" && x.Row["src_name"] == p.Src.Name && x.Row["ig_name"] == p.Decl.Name {
+					if nPos == 0 && p.FirstSet {
+						if nb := numOf(x.Row["nblocks"]); nb > 0 && numOf(x.Row["num"])+1 >= nb {
+							p.First = numOf(x.Row["num"]) + 1 - nb
+						}
+					}
+					nPos++
+				}
+			}
+		}
 	}
 	if !p.FirstSet && res.After.OK && !res.Before.OK {
 		// first recorded position: where did indexing begin?
